@@ -57,7 +57,8 @@ HARNESSES = [
     HO("c02_min_max_mixed", 60, "min/max of fixnum and float compare as doubles",
        "56-bit x finite double"),
     HO("c02_neg_abs_sign_float", 30, "- abs sign on floats", "every finite double"),
-    HO("c02_add_mul_mixed", 120, "fixnum + float (either order)", "56-bit x finite double",
+    HO("c02_add_mul_mixed", 120, "fixnum + float", "56-bit x finite double", timeout=1500),
+    HO("c02_add_mixed_swapped", 120, "float + fixnum", "56-bit x finite double", tiers=T,
        timeout=1500),
     HO("c02_mul_mixed", 300, "fixnum * float", "56-bit x finite double", tiers=T, timeout=3000),
 ]
